@@ -848,14 +848,12 @@ func c38PEM(c *Ctx) {
 	for _, cl := range sw.Body.List {
 		cc := cl.(*ast.CaseClause)
 		ps := map[string]bool{}
-		for _, call := range c38CallsInStmts(cc.Body) {
-			fn := core.Callee(info, call)
-			if fn == nil || fn.Pkg() == nil || fn.Pkg().Path() != "crypto/x509" || len(call.Args) < 1 {
-				continue
-			}
-			if se, ok := ast.Unparen(call.Args[0]).(*ast.SelectorExpr); ok && se.Sel.Name == "Bytes" && isPemBlock(info.TypeOf(se.X)) {
-				ps[fn.Name()] = true
-			}
+		isBlockBytes := func(e ast.Expr) bool {
+			se, ok := ast.Unparen(e).(*ast.SelectorExpr)
+			return ok && se.Sel.Name == "Bytes" && isPemBlock(info.TypeOf(se.X))
+		}
+		for _, st := range cc.Body {
+			c38X509ParsersOn(c, info, st, isBlockBytes, ps, 0)
 		}
 		for _, e := range cc.List {
 			if v, ok := c38ConstString(info, e); ok {
@@ -1110,4 +1108,44 @@ func c38RejectsNil(c *Ctx, fi *core.FuncInfo, body ast.Node, v *types.Var, depth
 		})
 	}
 	return rejects, why
+}
+
+// c38X509ParsersOn collects the crypto/x509 functions that are applied to the bytes denoted by isBytes inside
+// node n; a same-module helper that receives those bytes as an argument is followed with the corresponding
+// parameter (and its plain local copies) standing for the bytes.
+func c38X509ParsersOn(c *Ctx, info *types.Info, n ast.Node, isBytes func(ast.Expr) bool, out map[string]bool, depth int) {
+	ast.Inspect(n, func(y ast.Node) bool {
+		call, ok := y.(*ast.CallExpr)
+		if !ok {
+			return true
+		}
+		fn := core.Callee(info, call)
+		if fn == nil || fn.Pkg() == nil {
+			return true
+		}
+		if fn.Pkg().Path() == "crypto/x509" {
+			if len(call.Args) >= 1 && isBytes(call.Args[0]) {
+				out[fn.Name()] = true
+			}
+			return true
+		}
+		hfi := c.P.DeclOf(fn)
+		if hfi == nil || hfi.Decl.Body == nil || depth >= 2 {
+			return true
+		}
+		sig := fn.Type().(*types.Signature)
+		for i, arg := range call.Args {
+			if !isBytes(arg) || i >= sig.Params().Len() || (sig.Variadic() && i >= sig.Params().Len()-1) {
+				continue
+			}
+			hinfo := hfi.Pkg.TypesInfo
+			vars := c29Aliases(hinfo, hfi.Decl.Body, sig.Params().At(i))
+			c.R.Saw(hfi.Name())
+			c38X509ParsersOn(c, hinfo, hfi.Decl.Body, func(e ast.Expr) bool {
+				v := core.VarOf(hinfo, ast.Unparen(e))
+				return v != nil && vars[v]
+			}, out, depth+1)
+		}
+		return true
+	})
 }
